@@ -32,6 +32,22 @@ theorem noSendErr_step (cfg : Cfg) (hcfg : cfg.sendErrorSurfaces = false) {s s' 
       · cases h; exact noSendErr_setReq r _ h0 (h0 r q hq)
       · cases h
     · cases h
+  | bind r =>
+    simp only [step] at h
+    split at h
+    · rename_i q hq
+      split at h
+      · cases h; exact noSendErr_setReq r _ h0 (h0 r q hq)
+      · split at h
+        · cases h; exact noSendErr_setReq r _ h0 (h0 r q hq)
+        · cases h
+      · cases h
+    · cases h
+  | init =>
+    simp only [step] at h
+    split at h
+    · cases h; exact h0
+    · cases h
   | arr r k =>
     simp only [step] at h
     split at h
@@ -77,6 +93,9 @@ theorem noSendErr_step (cfg : Cfg) (hcfg : cfg.sendErrorSurfaces = false) {s s' 
       · split at h
         · cases h; exact noSendErr_setReq r _ h0 (h0 r q hq)
         · cases h
+      · split at h
+        · cases h; exact noSendErr_setReq r _ h0 (h0 r q hq)
+        · cases h
       · cases h
     · cases h
   | reconnect =>
@@ -118,9 +137,11 @@ theorem noSendErr_step (cfg : Cfg) (hcfg : cfg.sendErrorSurfaces = false) {s s' 
     simp only [step] at h
     split at h
     · split at h
-      · rename_i hg
-        rw [hcfg] at hg
-        simp at hg
+      · split at h
+        · rename_i hg
+          rw [hcfg] at hg
+          simp at hg
+        · cases h
       · cases h
     · cases h
   | close =>
